@@ -649,13 +649,26 @@ def load_known():
     return json.load(open(p)).get("findings", [])
 
 
+class ExtraResult(object):
+    """result of an obligation decided by another engine (E2 irsym), merged into the same evidence/exit protocol"""
+
+    def __init__(self, name, family, status, desc="", bounds="", wall=0.0, reason="", replay_dir=None, queries=1,
+                 units=(), backend="irsym", solver_s=0.0, replayed=None):
+        self.ob = Ob(name, "(irsym)", units=units, desc=desc, bounds=bounds, family=family, backend=backend)
+        self.status, self.reason, self.wall, self.solver_s = status, reason, wall, solver_s
+        self.rss_kb, self.nprops, self.failed = 0, 0, []
+        self.witness = status == "ok"
+        self.replay_dir, self.replayed, self.replay_txt = replay_dir, replayed, reason
+        self.known, self.queries = None, queries
+
+
 def run_check(prop, obs, tier, seed, level_text="", assumptions=(), outside=(),
-              only=None, keep=False, trusted=()):
+              only=None, keep=False, trusted=(), extra=()):
     t0 = time.time()
     obs = [o for o in obs if tier == "thorough" or o.tier == "quick"]
     if only:
         obs = [o for o in obs if re.search(only, o.name)]
-    if not obs:
+    if not obs and not extra:
         log("INCONCLUSIVE no obligation selected for %s (tier=%s only=%r)" % (prop, tier, only))
         return 2
     work = Work(prop)
@@ -689,10 +702,20 @@ def run_check(prop, obs, tier, seed, level_text="", assumptions=(), outside=(),
 
     known = [k for k in load_known() if k.get("property") == prop and not k.get("fixed")]
     violations, inconclusive, known_hits = [], [], []
+    results = list(results)
+    for x in extra:
+        x.ob_prop = prop
+        results.append(x)
+        if x.status == "violation":
+            violations.append(x)
+        elif x.status == "inconclusive":
+            inconclusive.append(x)
     rep_root = os.path.join(VERIF, "replays")
     fam_count = {}
     for r in results:
         r.ob_prop = prop
+        if isinstance(r, ExtraResult):
+            continue
         if r.status == "violation":
             kf = None
             for k in known:
